@@ -1,4 +1,5 @@
-import Pyunicorn.Lemmas.Cross
+import Pyunicorn.Lemmas.CrossWhole
+import Pyunicorn.Generated.ArithC11
 /-!
 # C11 — cross / internal measures of interacting networks match sub-blocks
 
@@ -536,5 +537,560 @@ theorem nsiCrossAPL_ne_def :
   refine ⟨2, fun a b => some (if a = b then 0 else 1), fun a => if a = 0 then 1 else 2,
     [0], [1], by simp, ?_⟩
   simp [nsiCrossAPL, nsiCrossAPLParts, nsiCrossAPLDef, wsum, nsiDist]
+
+/-! ## Round 2 -/
+
+/-! ### transposed blocks: `cross_adjacency`, `cross_link_attribute`, `cross_path_lengths` for
+both argument orders -/
+
+/-- on a symmetric matrix (undirected network) the block for `(L2, L1)` is the transpose of the
+block for `(L1, L2)`, entry by entry, for lists in any order -/
+theorem block_swap {α : Type} (M : Nat → Nat → α) (hM : Symm M) (L1 L2 : List Nat) (i j : Nat)
+    (hi : i < L1.length) (hj : j < L2.length) :
+    ((block M L2 L1)[j]?.bind (·[i]?)) = ((block M L1 L2)[i]?.bind (·[j]?)) := by
+  rw [block_respects_order M L2 L1 j i hj hi, block_respects_order M L1 L2 i j hi hj, hM]
+
+example : block (fun a b => a * b) [2, 3] [5] = [[10], [15]]
+    ∧ block (fun a b => a * b) [5] [2, 3] = [[10, 15]] := by decide
+
+/-! ### path-length measures = their definitions on the block -/
+
+/-- **`cross_average_path_length` = mean over the reachable pairs**: the code's
+`sum / (N·M − #inf)` (with `inf` entries zeroed) is the arithmetic mean of the finite entries of
+the block `D[L1, L2]`, and `nan` (`none`) exactly if no pair is reachable. -/
+theorem crossAPL_eq_mean_finite (D : Dist) (L1 L2 : List Nat) :
+    crossAPL D L1 L2 = mean (finiteEntries (block D L1 L2)) := by
+  obtain ⟨h1, h2⟩ := finite_split (block D L1 L2) L2.length (block_rows D L1 L2)
+  rw [block_length] at h1
+  have hn : ((L1.length : Int) * L2.length - (countNone (block D L1 L2) : Int))
+      = ((finiteEntries (block D L1 L2)).length : Int) := by
+    have : ((finiteEntries (block D L1 L2)).length : Int) + countNone (block D L1 L2)
+        = (L1.length : Int) * L2.length := by exact_mod_cast h1
+    linarith
+  unfold crossAPL generalAPL mean
+  simp only [Bool.false_eq_true, if_false, hn, h2, Int.natCast_eq_zero, Int.cast_natCast]
+
+example : crossAPL (fun a b => if a + b = 3 then none else some 2) [0, 1] [2, 3]
+    = mean [2, 2] := by decide +kernel
+
+/-- every group contains its own diagonal: with zero self-distances the block `D[L, L]` has at
+least `|L|` finite entries -/
+theorem finite_ge_diag (D : Dist) (L : List Nat) (hdiag : ∀ a ∈ L, D a a = some 0) :
+    L.length ≤ (finiteEntries (block D L L)).length := by
+  have key : ∀ (K : List Nat), (∀ a ∈ K, a ∈ L) →
+      K.length ≤ (finiteEntries (block D K L)).length := by
+    intro K
+    induction K with
+    | nil => intro _; simp
+    | cons a t ih =>
+      intro h
+      have := ih (fun x hx => h x (by simp [hx]))
+      have ha : a ∈ L := h a (by simp)
+      have h1 : 1 ≤ (finiteOf (L.map fun b => D a b)).length := by
+        have : (0 : Rat) ∈ finiteOf (L.map fun b => D a b) := by
+          simp only [finiteOf, List.mem_filterMap, List.mem_map, id]
+          exact ⟨some 0, ⟨a, ha, hdiag a ha⟩, rfl⟩
+        exact List.length_pos_of_mem this
+      simp only [finiteEntries, block, List.map_cons, List.flatten_cons, List.length_append,
+        List.length_cons] at this ⊢
+      omega
+  exact key L (fun a h => h)
+
+/-- **`internal_average_path_length` = mean over the reachable pairs of distinct positions**:
+with zero self-distances the code's `sum / ((N−1)·N − #inf)` is the sum of the finite entries of
+`D[L, L]` divided by their number *without the `N` diagonal entries* (which are finite and add
+`0` to the sum), and `nan` exactly if no off-diagonal pair is reachable. -/
+theorem internalAPL_eq_mean_offdiag (D : Dist) (L : List Nat) (hdiag : ∀ a ∈ L, D a a = some 0) :
+    internalAPL D L
+      = (let fin := finiteEntries (block D L L)
+         if fin.length - L.length = 0 then none
+         else some (fin.sum / ((fin.length - L.length : Nat) : Rat))) := by
+  obtain ⟨h1, h2⟩ := finite_split (block D L L) L.length (block_rows D L L)
+  rw [block_length] at h1
+  have hge := finite_ge_diag D L hdiag
+  have hn : (((L.length : Int) - 1) * L.length - (countNone (block D L L) : Int))
+      = (((finiteEntries (block D L L)).length - L.length : Nat) : Int) := by
+    have : ((finiteEntries (block D L L)).length : Int) + countNone (block D L L)
+        = (L.length : Int) * L.length := by exact_mod_cast h1
+    rw [Int.natCast_sub hge]
+    linarith
+  unfold internalAPL generalAPL
+  simp only [if_true, hn, h2, Int.natCast_eq_zero, Int.cast_natCast]
+
+example : internalAPL (fun a b => if a = b then some 0 else if a + b = 3 then none else some 2)
+    [0, 1, 2] = some 2 := by decide +kernel
+
+/-! ### `global_efficiency` is symmetric in the groups -/
+
+theorem anyZero_swap (D : Dist) (hD : Symm D) (L1 L2 : List Nat) :
+    (block D L1 L2).any (fun r => r.any (· == some 0))
+      = (block D L2 L1).any (fun r => r.any (· == some 0)) := by
+  rw [Bool.eq_iff_iff]
+  simp only [block, List.any_map, List.any_eq_true, Function.comp_def]
+  constructor
+  · rintro ⟨a, ha, b, hb, h⟩
+    exact ⟨b, hb, a, ha, by rw [hD b a]; exact h⟩
+  · rintro ⟨b, hb, a, ha, h⟩
+    exact ⟨a, ha, b, hb, by rw [hD a b]; exact h⟩
+
+/-- `global_efficiency(L1, L2) = global_efficiency(L2, L1)` on undirected networks (symmetric
+path lengths) for non-empty groups: both are `|L1|·|L2| / Σ_{a,b} 1/d_ab`. -/
+theorem globalEfficiency_symm (D : Dist) (hD : Symm D) (L1 L2 : List Nat)
+    (h1 : L1 ≠ []) (h2 : L2 ≠ []) :
+    globalEfficiency D L1 L2 = globalEfficiency D L2 L1 := by
+  have n1 : L1.length ≠ 0 := by simpa using h1
+  have n2 : L2.length ≠ 0 := by simpa using h2
+  have e : (L1.map fun a => (L2.map fun b =>
+        invD (D a b)).sum / (L2.length : Rat)).sum
+          / (L1.length : Rat)
+      = (L2.map fun b => (L1.map fun a =>
+        invD (D b a)).sum / (L1.length : Rat)).sum
+          / (L2.length : Rat) := by
+    rw [sum_div_const, sum_div_const, sum_comm_lists]
+    have : (L2.map fun b => (L1.map fun a =>
+          invD (D a b)).sum)
+        = (L2.map fun b => (L1.map fun a =>
+          invD (D b a)).sum) := by
+      apply List.map_congr_left
+      intro b _
+      congr 1
+      apply List.map_congr_left
+      intro a _
+      rw [hD a b]
+    rw [this, div_div, div_div, mul_comm]
+  unfold globalEfficiency localEfficiency
+  simp only [n1, n2, false_or]
+  rw [anyZero_swap D hD L1 L2]
+  by_cases hz : ((block D L2 L1).any fun r => r.any (· == some 0)) = true
+  · simp only [hz, if_true]
+  · simp only [hz, if_false]
+    simp only [mean, block, List.map_map, Function.comp_def, List.length_map, n1, n2,
+      Bool.false_eq_true, ↓reduceIte]
+    rw [e]
+
+example : globalEfficiency (fun a b => if a = b then some 0 else some 2) [0] [1, 2] = .val 2 := by
+  decide +kernel
+
+/-! ### n.s.i. methods = published formulas (method level, no side hypotheses) -/
+
+/-- **`nsi_cross_local_clustering` = definition** on an undirected network: entry `v` is
+`Σ_{p,q∈L2} A⁺[v,p] A⁺[p,q] A⁺[q,v] w_p w_q / (k*_v)²` with `k*_v` the n.s.i. cross degree
+(and `0` where `k*_v = 0`). -/
+theorem nsiCrossLocalClustering_eq_def (A : Adj) (hA : Symm A) (w : Nat → Rat) (L1 L2 : List Nat) :
+    nsiCrossLocalClustering A w L1 L2
+      = L1.map fun v =>
+          if (L2.map fun p => if aplus A v p then w p else 0).sum
+              * (L2.map fun p => if aplus A v p then w p else 0).sum ≠ 0 then
+            (L2.map fun p => (L2.map fun q =>
+                if aplus A v p && (aplus A p q && aplus A q v) then w p * w q else 0).sum).sum
+              / ((L2.map fun p => if aplus A v p then w p else 0).sum
+                  * (L2.map fun p => if aplus A v p then w p else 0).sum)
+          else 0 := by
+  unfold nsiCrossLocalClustering nsiClcKernel nsiCrossDegree
+  rw [zipWith_map_self]
+  apply List.map_congr_left
+  intro v _
+  rw [nsiClc_eq_def (aplus A) (aplus_symm A hA) (aplus_diag A) w v L2]
+
+/-- **`nsi_cross_transitivity` = definition** on an undirected network:
+`Σ_v w_v Σ_{p,q} A⁺[v,p] A⁺[v,q] A⁺[p,q] w_p w_q / Σ_v w_v (k*_v)²`, `ZeroDivisionError` iff the
+denominator vanishes. -/
+theorem nsiCrossTransitivity_eq_def (A : Adj) (hA : Symm A) (w : Nat → Rat) (L1 L2 : List Nat) :
+    nsiCrossTransitivity A w L1 L2
+      = (let T1 := (L1.map fun v => w v * (L2.map fun p => (L2.map fun q =>
+              if aplus A v p && (aplus A v q && aplus A p q) then w p * w q else 0).sum).sum).sum
+         let T2 := (L1.map fun v => w v * ((L2.map fun p => if aplus A v p then w p else 0).sum
+              * (L2.map fun p => if aplus A v p then w p else 0).sum)).sum
+         if T2 = 0 then none else some (T1 / T2)) := by
+  unfold nsiCrossTransitivity
+  rw [nsiCt_eq_def (aplus A) (aplus_symm A hA) (aplus_diag A) w L1 L2]
+
+example : nsiCrossTransitivity (fun a b => a != b) (fun _ => 1) [0] [1, 2] = some 1 := by
+  decide +kernel
+
+/-! ### the order of the second list does not matter (undirected networks) -/
+
+/-- **`_cross_transitivity` does not depend on the order of `node_list2`**: the triangular loop
+`j`, `k < j` visits every unordered pair once whatever the order, and on an undirected network
+both conditions are symmetric in the pair. -/
+theorem ctCounts_perm_right (A : Adj) (hA : Symm A) (L1 : List Nat) {L2 L2' : List Nat}
+    (h : L2.Perm L2') : ctCounts A L1 L2 = ctCounts A L1 L2' := by
+  rw [ctCounts_eq_pairSums, ctCounts_eq_pairSums]
+  have e1 : ∀ n1, pairSum (fun n2 n3 => b2n (A n1 n2 && (A n2 n3 && A n3 n1))) L2
+      = pairSum (fun n2 n3 => b2n (A n1 n2 && (A n2 n3 && A n3 n1))) L2' := by
+    intro n1
+    apply pairSum_perm _ _ h
+    intro a b
+    show b2n (A n1 a && (A a b && A b n1)) = b2n (A n1 b && (A b a && A a n1))
+    rw [hA a b, hA b n1, hA n1 a]
+    cases A a n1 <;> cases A b a <;> cases A n1 b <;> rfl
+  have e2 : ∀ n1, pairSum (fun n2 n3 => b2n (A n1 n2 && A n1 n3)) L2
+      = pairSum (fun n2 n3 => b2n (A n1 n2 && A n1 n3)) L2' := by
+    intro n1
+    apply pairSum_perm _ _ h
+    intro a b
+    simp only [Bool.and_comm]
+  simp only [e1, e2]
+
+/-- … and neither does `cross_local_clustering` (each entry: same counter, same cross degree) -/
+theorem crossLocalClustering_perm_right (A : Adj) (hA : Symm A) (L1 : List Nat)
+    {L2 L2' : List Nat} (h : L2.Perm L2') :
+    crossLocalClustering false A L1 L2 = crossLocalClustering false A L1 L2' := by
+  unfold crossLocalClustering clcKernel
+  have hdeg : crossDegree false A L1 L2 = crossDegree false A L1 L2' := by
+    simp only [crossDegree, Bool.false_eq_true, if_false, crossOutDegree, rowSums, blockN, block,
+      List.map_map, Function.comp_def]
+    apply List.map_congr_left
+    intro a _
+    exact (h.map fun b => b2n (A a b)).sum_eq
+  rw [hdeg]
+  have hc : ∀ n1, clcMid A n1 [] L2 0 = clcMid A n1 [] L2' 0 := by
+    intro n1
+    rw [clcCount_eq_pairSum, clcCount_eq_pairSum]
+    apply pairSum_perm _ _ h
+    intro a b
+    show b2n (A n1 a && (A a b && A b n1)) = b2n (A n1 b && (A b a && A a n1))
+    rw [hA a b, hA b n1, hA n1 a]
+    cases A a n1 <;> cases A b a <;> cases A n1 b <;> rfl
+  simp only [hc]
+
+example : ctCounts (fun a b => a != b) [0] [1, 2, 3] = ctCounts (fun a b => a != b) [0] [3, 1, 2] := by
+  decide
+
+/-! ### both groups = all nodes (in any order): the single-network measures
+
+`Pyunicorn.Net` (`Model/Net.lean`) is the model of `Network.degree / indegree / outdegree /
+nsi_degree / average_path_length / closeness / local_clustering`, tied to the implementation by
+C03's correspondence; the harness additionally compares the two implementations directly. -/
+
+/-- `cross_outdegree(L, L)` / `internal_outdegree(L)` with `L` any ordering of all nodes is
+`Network.outdegree()` in that order -/
+theorem whole_outdegree (A : Adj) (n : Nat) (L : List Nat) (h : L.Perm (List.range n)) :
+    crossOutDegree A L L = L.map (Net.outdeg n A) := by
+  simp only [crossOutDegree, rowSums, blockN, block, List.map_map, Function.comp_def]
+  apply List.map_congr_left
+  intro a _
+  rw [sum_perm_range h]
+  rfl
+
+theorem whole_indegree (A : Adj) (n : Nat) (L : List Nat) (h : L.Perm (List.range n)) :
+    crossInDegree A L L = L.map (Net.indeg n A) := by
+  rw [crossInDegree_eq]
+  apply List.map_congr_left
+  intro a _
+  rw [sum_perm_range h]
+  rfl
+
+/-- **whole-network limit of the degrees**: `cross_degree(L, L) = internal_degree(L) =
+Network.degree()[L]`, directed or not -/
+theorem whole_degree (directed : Bool) (A : Adj) (n : Nat) (L : List Nat)
+    (h : L.Perm (List.range n)) :
+    crossDegree directed A L L = L.map (Net.degree directed n A) := by
+  unfold crossDegree Net.degree
+  cases directed
+  · simpa using whole_outdegree A n L h
+  · simp only [if_true, whole_outdegree A n L h, whole_indegree A n L h, zipWith_map_self]
+
+example : crossDegree true (fun a b => a + 1 == b) [2, 0, 1] [2, 0, 1]
+    = [2, 0, 1].map (Net.degree true 3 (fun a b => a + 1 == b)) := by decide
+
+/-- `nsi_cross_degree(L, L) = nsi_internal_degree(L) = Network.nsi_degree()[L]` (out-version) -/
+theorem whole_nsi_degree (A : Adj) (w : Nat → Rat) (n : Nat) (L : List Nat)
+    (h : L.Perm (List.range n)) :
+    nsiCrossDegree A w L L = L.map (Net.nsiOutdeg n A w) := by
+  unfold nsiCrossDegree
+  apply List.map_congr_left
+  intro a _
+  rw [sum_perm_range h]
+  rfl
+
+/-- **whole-network limit of the average path length**: `internal_average_path_length(L)` with
+`L` any ordering of all nodes is `Network.average_path_length()` (mean over the connected ordered
+pairs `i ≠ j`, `nan` if there is none) -/
+theorem whole_average_path_length (D : Dist) (n : Nat) (L : List Nat)
+    (h : L.Perm (List.range n)) :
+    internalAPL D L = Net.avgPathLength n D := by
+  have hl : L.length = n := by simpa using h.length_eq
+  have hs : sumFinite (block D L L)
+      = ((List.range n).map fun a => ((List.range n).map fun b => (D a b).getD 0).sum).sum := by
+    rw [sumFinite_eq]
+    simp only [sum_perm_range h]
+  have hc : countNone (block D L L)
+      = ((List.range n).map fun a =>
+          ((List.range n).map fun b => if (D a b).isNone then 1 else 0).sum).sum := by
+    rw [countNone_eq]
+    simp only [sum_perm_range h]
+  have hden : ((n : Int) - 1) * n = ((n * (n - 1) : Nat) : Int) := by
+    cases n with
+    | zero => simp
+    | succ m => simp only [Nat.add_sub_cancel]; push_cast; ring
+  unfold internalAPL generalAPL Net.avgPathLength
+  simp only [if_true, hl, hs, hc, hden]
+  rfl
+
+example : internalAPL (fun a b => if a = b then some 0 else some 3) [1, 0]
+    = Net.avgPathLength 2 (fun a b => if a = b then some 0 else some 3) := by decide +kernel
+
+/-- **whole-network limit of the closeness** on a connected network: `internal_closeness(L)` is
+the weighted-branch `Network.closeness` `(N−1)/Σ_j d_ij` (no unreachable pair, so neither
+convention for `inf` is used) -/
+theorem whole_closeness (D : Dist) (n : Nat) (L : List Nat) (h : L.Perm (List.range n))
+    (hconn : ∀ a b, (D a b).isSome) :
+    internalCloseness D L = L.map (Net.closenessW n D) := by
+  have hl : L.length = n := by simpa using h.length_eq
+  unfold internalCloseness generalCloseness Net.closenessW
+  simp only [block, List.map_map, Function.comp_def, hl]
+  apply List.map_congr_left
+  intro a ha
+  have hn : 1 ≤ n := by
+    have : 0 < L.length := List.length_pos_of_mem ha
+    omega
+  have e : ∀ (x y : Rat), (L.map fun b => (D a b).getD x).sum
+      = ((List.range n).map fun b => (D a b).getD y).sum := by
+    intro x y
+    rw [sum_perm_range h]
+    congr 1
+    apply List.map_congr_left
+    intro b _
+    have := hconn a b
+    cases hd : D a b with
+    | none => simp [hd] at this
+    | some v => rfl
+  rw [e _ (n : Rat)]
+  simp only [Net.sumToQ]
+  have hc : (((n : Int) - 1 : Int) : Rat) = ((n - 1 : Nat) : Rat) := by
+    rw [Nat.cast_sub hn]; push_cast; ring
+  rw [hc]
+  by_cases hz : ((List.range n).map fun b => (D a b).getD (n : Rat)).sum = 0
+  · simp [hz]
+  · simp [hz]
+
+example : internalCloseness (fun a b => if a = b then some 0 else some 2) [1, 0]
+    = [1, 0].map (Net.closenessW 2 (fun a b => if a = b then some 0 else some 2)) := by
+  decide +kernel
+
+/-- closed 3-walks through `i` = twice the linked pairs of neighbours (undirected, loop-free) -/
+theorem tCycle_eq_two_pairSum (A : Adj) (hA : Symm A) (hloop : ∀ a, A a a = false) (n : Nat)
+    (L : List Nat) (h : L.Perm (List.range n)) (i : Nat) :
+    Net.tCycle n A i = 2 * pairSum (fun j k => b2n (A i j && (A j k && A k i))) L := by
+  have hsym : ∀ a b, (fun j k => b2n (A i j && (A j k && A k i))) a b
+      = (fun j k => b2n (A i j && (A j k && A k i))) b a := by
+    intro a b
+    simp only
+    rw [hA a b, hA b i, hA i a]
+    cases A a i <;> cases A b a <;> cases A i b <;> rfl
+  have hd := double_sum_symm_nat _ hsym L
+  have hz : (L.map fun a => (fun j k => b2n (A i j && (A j k && A k i))) a a).sum = 0 := by
+    apply List.sum_eq_zero
+    intro x hx
+    simp only [List.mem_map] at hx
+    obtain ⟨a, _, rfl⟩ := hx
+    simp [hloop a, b2n]
+  rw [hz, Nat.zero_add] at hd
+  rw [← hd]
+  simp only [sum_perm_range h]
+  unfold Net.tCycle Net.mmul Net.sumTo Net.toN
+  rw [sum_comm_lists]
+  apply congrArg
+  apply List.map_congr_left
+  intro k _
+  rw [← sum_map_mul_right_nat]
+  apply congrArg
+  apply List.map_congr_left
+  intro j _
+  simp only [Net.b2n, b2n]
+  cases A i j <;> cases A j k <;> cases A k i <;> rfl
+
+/-- **whole-network limit of the clustering**: on an undirected loop-free network
+`cross_local_clustering(L, L)` with `L` any ordering of all nodes is the Watts–Strogatz local
+clustering `(A³)_ii / (k_i (k_i − 1))` of `Network.local_clustering()` in that order (hence
+`cross_global_clustering(L, L) = global_clustering()`) -/
+theorem whole_local_clustering (A : Adj) (hA : Symm A) (hloop : ∀ a, A a a = false) (n : Nat)
+    (L : List Nat) (h : L.Perm (List.range n)) :
+    crossLocalClustering false A L L = L.map (Net.localClustering n A) := by
+  unfold crossLocalClustering clcKernel clcNorm
+  simp only [crossDegree, Bool.false_eq_true, if_false, whole_outdegree A n L h, List.map_map,
+    Function.comp_def, zipWith_self_map]
+  apply List.map_congr_left
+  intro i _
+  rw [clcCount_eq_pairSum]
+  unfold Net.localClustering Net.ratio0 Net.TOut
+  rw [tCycle_eq_two_pairSum A hA hloop n L h i]
+  generalize pairSum (fun n2 n3 => b2n (A i n2 && (A n2 n3 && A n3 i))) L = c
+  generalize Net.outdeg n A i = k
+  by_cases hk : (k : Int) * ((k : Int) - 1) = 0
+  · have : (k : Rat) * ((k : Rat) - 1) = 0 := by exact_mod_cast hk
+    simp [hk, this]
+  · have hq : (k : Rat) * ((k : Rat) - 1) ≠ 0 := by exact_mod_cast hk
+    have hq2 : (k : Rat) * ((k : Rat) - 1) / 2 ≠ 0 := by
+      intro h0
+      apply hq
+      linarith
+    simp only [hk, hq2, if_false, ne_eq, not_false_eq_true, if_true]
+    push_cast
+    field_simp
+
+example : crossLocalClustering false (fun a b => a != b) [2, 0, 1] [2, 0, 1]
+    = [2, 0, 1].map (Net.localClustering 3 (fun a b => a != b)) := by decide +kernel
+
+/-- **whole-network limit of the transitivity**: on an undirected loop-free network
+`cross_transitivity(L, L)` with `L` any ordering of all nodes is `Network.transitivity()`
+`Σ_i (A³)_ii / Σ_i k_i (k_i − 1)` — and `0` where the latter is `nan` (no connected triple). -/
+theorem whole_transitivity (A : Adj) (hA : Symm A) (hloop : ∀ a, A a a = false) (n : Nat)
+    (L : List Nat) (h : L.Perm (List.range n)) :
+    crossTransitivity A L L = (Net.transitivity n A).getD 0 := by
+  obtain ⟨h1, h2⟩ := whole_network_transitivity A L
+  rw [whole_outdegree A n L h, List.map_map] at h2
+  -- numerator: Σ_i (A³)_ii = 2 · triangles
+  have hnum : (Net.sumTo n fun i => Net.tCycle n A i) = 2 * (ctCounts A L L).1 := by
+    rw [h1]
+    unfold Net.sumTo
+    rw [← sum_perm_range h]
+    have : (L.map fun i => Net.tCycle n A i)
+        = L.map fun i => 2 * pairSum (fun j k => b2n (A i j && (A j k && A k i))) L := by
+      apply List.map_congr_left
+      intro i _
+      exact tCycle_eq_two_pairSum A hA hloop n L h i
+    rw [this, sum_map_mul_left_nat]
+  -- denominator: Σ_i k_i (k_i − 1) = 2 · triples
+  have hk : ∀ k : Nat, ((k : Int) * ((k : Int) - 1)) = ((k * (k - 1) : Nat) : Int) := by
+    intro k
+    cases k with
+    | zero => simp
+    | succ m => simp only [Nat.add_sub_cancel]; push_cast; ring
+  have hden : (Net.sumToI n fun i => Net.TOut n A i) = ((2 * (ctCounts A L L).2 : Nat) : Int) := by
+    rw [h2]
+    unfold Net.sumToI Net.TOut
+    rw [← sum_perm_range h]
+    simp only [hk, Function.comp_def]
+    rw [cast_sum_map_nat_int]
+  unfold crossTransitivity ratio Net.transitivity
+  simp only [hnum, hden]
+  generalize (ctCounts A L L).1 = tri
+  generalize (ctCounts A L L).2 = trp
+  by_cases hz : trp = 0
+  · simp [hz]
+  · have h2 : ((2 * trp : Nat) : Int) ≠ 0 := by omega
+    have hq : (trp : Rat) ≠ 0 := by exact_mod_cast hz
+    simp only [hz, ne_eq, not_false_eq_true, if_true, h2, if_false, Option.getD_some]
+    push_cast
+    field_simp
+
+example : crossTransitivity (fun a b => a != b) [2, 0, 1] [2, 0, 1]
+    = (Net.transitivity 3 (fun a b => a != b)).getD 0 := by decide +kernel
+
+/-- the mean over the group of the whole network's clustering does not depend on the order of
+the list and, for `L` = all nodes, is `Network.global_clustering()` = the mean of
+`cross_local_clustering(L, L)` -/
+theorem whole_global_clustering (A : Adj) (hA : Symm A) (hloop : ∀ a, A a a = false) (n : Nat)
+    (L : List Nat) (h : L.Perm (List.range n)) :
+    crossGlobalClustering false A L L = internalGlobalClustering n A L := by
+  unfold crossGlobalClustering internalGlobalClustering
+  rw [whole_local_clustering A hA hloop n L h]
+
+/-! ### index and normalisation expressions regenerated from the source (`translate/arith_C11.json`
+→ `Generated/ArithC11.lean` on every run): the expressions the model uses are the ones in the code -/
+
+open Pyunicorn.Generated in
+/-- the loop bounds of `cross_transitivity_sparse` and `cross_local_clustering_sparse` are
+`range(N1)`, `range(N1, N1+N2)`, `range(N1, j)`: the model's `List.range N1`,
+`List.range' N1 N2`, `List.range' N1 (j − N1)` -/
+theorem arith_sparse_ranges (N1 N2 j : Int) :
+    ArithC11.ctSparseIHi N1 N2 j = N1 ∧ ArithC11.ctSparseJLo N1 N2 j = N1
+      ∧ ArithC11.ctSparseJHi N1 N2 j - ArithC11.ctSparseJLo N1 N2 j = N2
+      ∧ ArithC11.ctSparseKLo N1 N2 j = N1
+      ∧ ArithC11.ctSparseKHi N1 N2 j - ArithC11.ctSparseKLo N1 N2 j = j - N1
+      ∧ ArithC11.clcSparseIHi N1 N2 j = N1 ∧ ArithC11.clcSparseJLo N1 N2 j = N1
+      ∧ ArithC11.clcSparseJHi N1 N2 j - ArithC11.clcSparseJLo N1 N2 j = N2
+      ∧ ArithC11.clcSparseKLo N1 N2 j = N1
+      ∧ ArithC11.clcSparseKHi N1 N2 j - ArithC11.clcSparseKLo N1 N2 j = j - N1 := by
+  simp only [ArithC11.ctSparseIHi, ArithC11.ctSparseJLo, ArithC11.ctSparseJHi,
+    ArithC11.ctSparseKLo, ArithC11.ctSparseKHi, ArithC11.clcSparseIHi, ArithC11.clcSparseJLo,
+    ArithC11.clcSparseJHi, ArithC11.clcSparseKLo, ArithC11.clcSparseKHi]
+  refine ⟨trivial, trivial, ?_, trivial, trivial, trivial, trivial, ?_, trivial, trivial⟩ <;> omega
+
+open Pyunicorn.Generated in
+/-- `norm = cross_degree * (cross_degree - 1) / 2` in the dense and in the sparse method is the
+model's `clcNorm` -/
+theorem arith_clc_norm (deg : List Nat) :
+    clcNorm deg = deg.map (fun (d : Nat) => ArithC11.clcNormDense (d : Int))
+      ∧ clcNorm deg = deg.map (fun (d : Nat) => ArithC11.clcNormSparse (d : Int)) := by
+  constructor <;>
+  · unfold clcNorm
+    apply List.map_congr_left
+    intro d _
+    simp only [ArithC11.clcNormDense, ArithC11.clcNormSparse]
+    push_cast
+    ring
+
+open Pyunicorn.Generated in
+/-- the normalisations of `_calculate_general_average_path_length` are the model's `generalAPL`
+denominators -/
+theorem arith_apl_norm (N M : Nat) (B : List (List (Option Rat))) (internal : Bool) :
+    generalAPL N M B internal
+      = (let norm : Rat := if internal then ArithC11.aplNormInternal N M (countNone B)
+                           else ArithC11.aplNormCross N M (countNone B)
+         if norm = 0 then none else some (sumFinite B / norm)) := by
+  unfold generalAPL ArithC11.aplNormInternal ArithC11.aplNormCross
+  cases internal <;> simp only [Bool.false_eq_true, if_false, if_true, Int.cast_eq_zero]
+
+open Pyunicorn.Generated in
+/-- `_calculate_general_closeness`: `n_nodes`, `norm` and the replacement value of unreachable
+pairs are those of `crossCloseness` / `internalCloseness` -/
+theorem arith_closeness (selfN : Nat) (D : Dist) (L1 L2 : List Nat) :
+    crossCloseness selfN D L1 L2
+        = generalCloseness (ArithC11.clsNodesCross L1.length L2.length selfN).toNat
+            (ArithC11.clsNormCross L1.length L2.length selfN) (block D L1 L2)
+      ∧ internalCloseness D L1
+        = generalCloseness (ArithC11.clsNodesInternal L1.length L1.length selfN).toNat
+            (ArithC11.clsNormInternal L1.length L1.length selfN) (block D L1 L1)
+      ∧ ∀ m : Nat, ArithC11.clsUnreachable m = (m : Int) - 1 := by
+  simp [crossCloseness, internalCloseness, ArithC11.clsNodesCross, ArithC11.clsNormCross,
+    ArithC11.clsNodesInternal, ArithC11.clsNormInternal, ArithC11.clsUnreachable]
+
+open Pyunicorn.Generated in
+/-- link densities and the halving of the internal link count -/
+theorem arith_densities (directed : Bool) (A : Adj) (L1 L2 : List Nat) :
+    (L1.length * L2.length ≠ 0 →
+        crossLinkDensity A L1 L2
+          = some (ArithC11.crossLinkDensityExpr (numberCrossLinks A L1 L2) L1.length L2.length))
+      ∧ (L1.length * (L1.length - 1) ≠ 0 →
+        internalLinkDensity directed A L1
+          = some (if directed then
+              ArithC11.internalLinkDensityDirected (numberInternalLinks directed A L1) L1.length
+            else
+              ArithC11.internalLinkDensityUndirected (numberInternalLinks directed A L1) L1.length))
+      ∧ ((numberInternalLinks false A L1 : Nat) : Int)
+          = ArithC11.internalLinksUndirected ((rowSums (internalAdjacency A L1)).sum : Nat) := by
+  refine ⟨?_, ?_, ?_⟩
+  · intro h
+    simp only [crossLinkDensity, h, if_false, ArithC11.crossLinkDensityExpr]
+    push_cast
+    rfl
+  · intro h
+    have h1 : 1 ≤ L1.length := by
+      rcases Nat.eq_zero_or_pos L1.length with h0 | h0
+      · simp [h0] at h
+      · exact h0
+    simp only [internalLinkDensity, h, if_false, ArithC11.internalLinkDensityDirected,
+      ArithC11.internalLinkDensityUndirected]
+    cases directed <;> simp [Nat.cast_sub h1]
+  · simp [numberInternalLinks, ArithC11.internalLinksUndirected]
+
+open Pyunicorn.Generated in
+/-- `nsi_cross_average_path_length` returns `Lij / (Wi*Wj − Wij)` and both n.s.i. path measures
+replace unreachable pairs by `self.N − 1` -/
+theorem arith_nsi_apl (N : Nat) (D : Dist) (w : Nat → Rat) (L1 L2 : List Nat)
+    (h : (nsiCrossAPLParts N D w L1 L2).2 ≠ 0) :
+    nsiCrossAPL N D w L1 L2
+        = some (ArithC11.nsiAplExpr (nsiCrossAPLParts N D w L1 L2).1 (wsum w L1) (wsum w L1)
+            ((L1.map fun a => (L2.map fun b =>
+              if (D a b).isNone then w a + w b else 0).sum).sum))
+      ∧ ArithC11.nsiAplUnreachable N = (N : Int) - 1
+      ∧ ArithC11.nsiClosenessUnreachable N = (N : Int) - 1 := by
+  refine ⟨?_, rfl, rfl⟩
+  unfold nsiCrossAPL
+  simp only [h, if_false, ArithC11.nsiAplExpr]
+  rfl
 
 end Pyunicorn.Cross
